@@ -234,7 +234,7 @@ class NumNS:
         if nonneg:
             a = np.abs(a)
         if str(dtype).startswith("complex"):
-            a = a + 1j * self.rng.standard_normal(shape)
+            a = a + 1j * self.rng.standard_normal(shape) * getattr(self, "scale", 1.0)
         a = a.astype(dtype)
         self.inputs[name] = a
         return a
